@@ -85,7 +85,8 @@ fn run_case(out: &mut Out, run: usize, case: &Value) {
     kolibrie::verif::event(json!({"ev":"stopped"}).to_string());
     // quiescence, decided by events rather than by timing: every window worker logs `worker-exit` when its channel
     // is closed and drained (stop() closes it); dropping the engine then disconnects the coordinator, which logs
-    // `coordinator-exit`.  A thread that does not get there within a generous deadline is a tool problem.
+    // `coordinator-exit`.  A thread that never gets there keeps this case from returning: the watchdog of main() records a `hang`
+    // (engine threads block each other) and the driver is restarted behind this case.
     let mut log: Vec<String> = Vec::new();
     let mut timed_out = false;
     let has = |log: &Vec<String>, ev: &str, win: &str| log.iter().any(|l| l.contains(&format!("\"ev\":\"{ev}\"")) && l.contains(&format!("{}", serde_json::to_string(win).unwrap())));
@@ -94,7 +95,7 @@ fn run_case(out: &mut Out, run: usize, case: &Value) {
         loop {
             log.extend(kolibrie::verif::take_log());
             if my_windows.iter().all(|w| has(&log, "worker-exit", w)) { break; }
-            if t0.elapsed() > Duration::from_secs(60) { timed_out = true; break; }
+            if t0.elapsed() > Duration::from_secs(3600) { timed_out = true; break; }   // the watchdog of main() (90 s) fires first: a thread that never exits is a `hang`
             std::thread::sleep(Duration::from_millis(2));
         }
     }
@@ -105,7 +106,7 @@ fn run_case(out: &mut Out, run: usize, case: &Value) {
         loop {
             log.extend(kolibrie::verif::take_log());
             if my_windows.iter().any(|w| has(&log, "coordinator-exit", w)) { break; }
-            if t0.elapsed() > Duration::from_secs(60) { timed_out = true; break; }
+            if t0.elapsed() > Duration::from_secs(3600) { timed_out = true; break; }   // the watchdog of main() (90 s) fires first: a thread that never exits is a `hang`
             std::thread::sleep(Duration::from_millis(2));
         }
     }
